@@ -119,9 +119,12 @@ func TestVerifC14(t *testing.T) {
 			c14AddLeases(t, srv, 1+k*40, 40, 20+k, 5)
 		}
 	})
-	// two goroutines storing at the same time (in production: the v4 and the v6
-	// server both call onNotify -> dbStore, which takes no lock): interleaved
-	// rename-based saves must still only ever publish complete versions
+	// several goroutines storing at the same time (in production: the v4 server,
+	// the v6 server and the HTTP handlers for static leases each hold only their
+	// own lock around onNotify -> dbStore, which takes none): every save needs
+	// a temporary file of its own; interleaved saves must still only ever
+	// publish complete versions.  Writers have distinct table sizes, so a file
+	// assembled from two saves cannot pass for one of the intended versions.
 	dbc := filepath.Join(dir(), dataFilename)
 	s.Case("concurrent-stores", dbc, nil, []string{"dhcpd", "dst-absent", "tmp-in-dstdir", "bytes"}, func(c *verifc14.Case) {
 		a, b := c14Server(t, dbc, 2, 5, 21), c14Server(t, dbc, 3, 7, 22)
@@ -133,28 +136,169 @@ func TestVerifC14(t *testing.T) {
 	})
 	s.TmpShared()
 	s.Case("concurrent-stores-big", db, nil, []string{"dhcpd", "dst-present", "tmp-in-tmpdir"}, func(c *verifc14.Case) {
-		srvs := []*server{c14Server(t, db, 900, 120, 23), c14Server(t, db, 500, 200, 24), c14Server(t, db, 1300, 60, 25)}
-		for k := 0; k < 3; k++ {
+		srvs := []*server{c14Server(t, db, 900, 120, 23), c14Server(t, db, 500, 200, 24), c14Server(t, db, 1300, 60, 25),
+			c14Server(t, db, 40, 30, 26)}
+		for k := 0; k < s.Scale(4, 12); k++ {
 			var jobs []verifc14.Job
 			for _, sv := range srvs {
 				jobs = append(jobs, verifc14.Job{Want: c14Expected(t, sv), F: sv.dbStore})
 			}
-			c.SaveConcurrent(fmt.Sprintf("triple-%d", k), jobs)
+			c.SaveConcurrent(fmt.Sprintf("quad-%d", k), jobs)
 		}
 	})
 	s.TmpInDstDir()
-	// migration of the old leases.db: writeDB(data/leases.json) then the old file is removed
-	{
-		work := s.Dir("mig")
-		data := s.Dir("mig/data")
-		old := []*leaseJSON{{HWAddr: []byte{1, 2, 3, 4, 5, 6}, IP: []byte{10, 0, 0, 9}, Hostname: "old", Expiry: 1900000000}}
+	// the production shape of the same thing: ONE server object, the store is
+	// requested through onNotify by several goroutines at once (error swallowed
+	// there, so only the file and the trace can tell)
+	dbn := filepath.Join(dir(), dataFilename)
+	s.Case("concurrent-onNotify", dbn, nil, []string{"dhcpd", "dst-absent", "tmp-in-dstdir", "onNotify"}, func(c *verifc14.Case) {
+		srv := c14Server(t, dbn, 700, 90, 27)
+		srv.onLeaseChanged = nil
+		want := c14Expected(t, srv)
+		for k := 0; k < s.Scale(3, 10); k++ {
+			var jobs []verifc14.Job
+			for w := 0; w < 4; w++ {
+				jobs = append(jobs, verifc14.Job{Want: want, F: func() error { srv.onNotify(LeaseChangedDBStore); return nil }})
+			}
+			c.SaveConcurrent(fmt.Sprintf("notify-%d", k), jobs)
+		}
+	})
+	// migration of the old leases.db (what runs at every start, in Create):
+	// writeDB(data/leases.json), then the old file is removed
+	oldDB := func(work string, n int) (want []byte) {
+		var old []*leaseJSON
+		leases := []*dbLease{}
+		for i := 0; i < n; i++ {
+			host := fmt.Sprintf("old%03d", i)
+			old = append(old, &leaseJSON{HWAddr: []byte{1, 2, 3, 4, 5, byte(i)}, IP: []byte{10, 0, 0, byte(9 + i)}, Hostname: host, Expiry: 1900000000 + int64(i)})
+			leases = append(leases, &dbLease{
+				Expiry:   time.Unix(1900000000+int64(i), 0).Format(time.RFC3339),
+				Hostname: host,
+				HWAddr:   net.HardwareAddr{1, 2, 3, 4, 5, byte(i)}.String(),
+				IP:       netip.AddrFrom4([4]byte{10, 0, 0, byte(9 + i)}),
+			})
+		}
 		b, _ := json.Marshal(old)
 		if err := os.WriteFile(filepath.Join(work, dbFilename), b, 0o644); err != nil {
 			t.Fatal(err)
 		}
-		dst := filepath.Join(data, dataFilename)
-		s.Case("migrate-db", dst, nil, []string{"dhcpd", "dst-absent", "tmp-in-dstdir", "bytes", "migrateDB"}, func(c *verifc14.Case) {
+		want, err := json.Marshal(&dataLeases{Version: dataVersion, Leases: leases})
+		if err != nil {
+			t.Fatal(err)
+		}
+		return want
+	}
+	nm := 0
+	migDirs := func() (work, data, dst string) {
+		nm++
+		work = s.Dir(fmt.Sprintf("mig%d", nm))
+		data = s.Dir(fmt.Sprintf("mig%d/data", nm))
+		return work, data, filepath.Join(data, dataFilename)
+	}
+	{
+		work, data, dst := migDirs()
+		want := oldDB(work, 1)
+		s.Case("migrate-db", dst, nil, []string{"dhcpd", "dst-absent", "tmp-in-dstdir", "bytes", "migrateDB", "upgrade-on-start"}, func(c *verifc14.Case) {
+			c.Want(want)
 			c.Save("migrateDB", func() error { return migrateDB(&ServerConfig{WorkDir: work, DataDir: data}) })
+			if _, err := os.Stat(filepath.Join(work, dbFilename)); err == nil {
+				c.Fail("migrateDB succeeded but the legacy %s is still there", dbFilename)
+			}
+		})
+		// start-up with BOTH files present (an earlier start was interrupted
+		// between the write and the removal): leases.json is replaced, atomically
+		want = oldDB(work, 2)
+		s.Case("migrate-db-present", dst, nil, []string{"dhcpd", "dst-present", "tmp-in-dstdir", "bytes", "migrateDB", "upgrade-on-start"}, func(c *verifc14.Case) {
+			c.Want(want)
+			c.Save("migrateDB", func() error { return migrateDB(&ServerConfig{WorkDir: work, DataDir: data}) })
+		})
+		// start-up as a whole: migrate, load what was migrated, first store
+		want = oldDB(work, 3)
+		s.Case("start-up", dst, nil, []string{"dhcpd", "dst-present", "tmp-in-dstdir", "migrateDB", "upgrade-on-start", "multi-save"}, func(c *verifc14.Case) {
+			c.Want(want)
+			c.Save("migrateDB", func() error { return migrateDB(&ServerConfig{WorkDir: work, DataDir: data}) })
+			srv := c14Server(t, dst, 0, 0, 30)
+			if err := srv.dbLoad(); err != nil {
+				t.Errorf("start-up: dbLoad: %v", err)
+			}
+			if n := len(srv.srv4.getLeasesRef()); n != 3 {
+				c.Fail("dbLoad after the migration found %d leases, want 3", n)
+			}
+			c14AddLeases(t, srv, 100, 5, 12, 30)
+			c14Store(t, c, "dbStore-after-load", srv)
+		})
+	}
+
+	// ---- injected write failures (RLIMIT_FSIZE: the write is cut short, then
+	// EFBIG, as with a full disk): leases.json must be byte-identical afterwards
+	for i, sc := range []struct {
+		name    string
+		present bool
+		n       int
+		limit   func(size int) uint64
+		shared  bool
+	}{
+		{"fail-first-write-absent", false, 3, func(int) uint64 { return 0 }, false},
+		{"fail-first-write-present", true, 3, func(int) uint64 { return 0 }, false},
+		{"fail-mid-write-present", true, 400, func(sz int) uint64 { return uint64(sz / 2) }, false},
+		{"fail-last-byte-present", true, 50, func(sz int) uint64 { return uint64(sz - 1) }, true},
+		{"fail-mid-write-absent", false, 400, func(sz int) uint64 { return uint64(sz / 3) }, true},
+	} {
+		db := filepath.Join(dir(), dataFilename)
+		cls := []string{"dhcpd", "failed-save"}
+		if sc.shared {
+			s.TmpShared()
+			cls = append(cls, "tmp-in-tmpdir")
+		} else {
+			s.TmpInDstDir()
+			cls = append(cls, "tmp-in-dstdir")
+		}
+		if sc.present {
+			if err := c14Server(t, db, 2, 6, uint64(40+i)).dbStore(); err != nil {
+				t.Fatal(err)
+			}
+			cls = append(cls, "dst-present")
+		} else {
+			cls = append(cls, "dst-absent")
+		}
+		s.Case(sc.name, db, nil, cls, func(c *verifc14.Case) {
+			srv := c14Server(t, db, sc.n, 40, uint64(50+i))
+			want := c14Expected(t, srv)
+			lim := sc.limit(len(want))
+			c.Info["limit"], c.Info["size"] = lim, len(want)
+			if err := c.SaveLimited("dbStore-limited", lim, srv.dbStore); err == nil {
+				c.Fail("dbStore of %d bytes under a file size limit of %d reported success", len(want), lim)
+			}
+			// ... and the next save, with room again, goes through
+			c14Store(t, c, "dbStore-after-failure", srv)
+		})
+	}
+	s.TmpInDstDir()
+	for _, present := range []bool{false, true} {
+		work, data, dst := migDirs()
+		want := oldDB(work, 30)
+		cls := []string{"dhcpd", "failed-save", "migrateDB", "upgrade-on-start", "tmp-in-dstdir"}
+		name := "fail-migrate-absent"
+		if present {
+			if err := c14Server(t, dst, 2, 6, 60).dbStore(); err != nil {
+				t.Fatal(err)
+			}
+			cls = append(cls, "dst-present")
+			name = "fail-migrate-present"
+		} else {
+			cls = append(cls, "dst-absent")
+		}
+		s.Case(name, dst, nil, cls, func(c *verifc14.Case) {
+			if err := c.SaveLimited("migrateDB-limited", uint64(len(want)/2), func() error {
+				return migrateDB(&ServerConfig{WorkDir: work, DataDir: data})
+			}); err == nil {
+				c.Fail("migrateDB under a file size limit reported success")
+			}
+			if _, err := os.Stat(filepath.Join(work, dbFilename)); err != nil {
+				c.Fail("migrateDB failed to write %s but removed the legacy %s: the leases are lost", dataFilename, dbFilename)
+			}
+			c.Want(want)
+			c.Save("migrateDB-retry", func() error { return migrateDB(&ServerConfig{WorkDir: work, DataDir: data}) })
 		})
 	}
 
